@@ -24,6 +24,7 @@ P == [
   ShortIf    |-> R("stat", <<"<", "k:if", "s:(", "+", "exp", "-", "s:)", "chunk1", "selse", ">">>),
   SElseNone  |-> R("selse", <<>>),
   SElse      |-> R("selse", <<"k:else", "chunk1">>),
+  SElseEmpty |-> R("selse", <<"k:else", "SB">>),        \* PICO-8 accepts a short-if whose `else` has nothing after it
   Chunk1     |-> R("chunk1", <<"SB", "stats1">>),
   St1Stat    |-> R("stats1", <<"stat", "SB", "stats">>),
   St1Ret     |-> R("stats1", <<"k:return", "retvals", "SB">>),
